@@ -63,8 +63,17 @@ def gcm_oneshot_behaviours(rng, n_per_combo, fams=None, full=False):
             for bits in (128, 256):
                 for dirn in ("enc", "dec"):
                     name = "gcm-%s-%d-%s-%s" % (fam, bits, dirn, "nt" if nt else "reg")
-                    picks = lens if full else [rng.choice(lens) for _ in range(n_per_combo)]
-                    # every residue class and the small block counts at least once across the job set
+                    if full:
+                        picks = lens
+                    else:
+                        # stratified sample: exact block multiples up to the by-8 / by-16 loop entries, the dense small range,
+                        # the counter-wrap region (240..264 blocks), loop-boundary block counts, 8 KiB
+                        wrap = [16 * k + r for k in range(240, 265) for r in (0, 1, 8, 15)]
+                        bnd = [16 * k + r for k in (95, 96, 97, 127, 128, 129, 511, 512, 513) for r in (0, 1, 15)]
+                        n = max(1, n_per_combo // 14)
+                        picks = ([16 * rng.randrange(0, 17) for _ in range(3 * n)] + [rng.randrange(0, 1072) for _ in range(4 * n)] +
+                                 [rng.choice(wrap) for _ in range(5 * n)] + [rng.choice(bnd) for _ in range(n)] +
+                                 [8192 + rng.choice([0, 1, 15, 16, 17]) for _ in range(n)])
                     bs = []
                     for ln in picks:
                         bs.append([gcm_call(rng, fam, bits, dirn, nt, ln, rng.choice(aad_lens()), rng.choice([8, 12, 16]))])
